@@ -80,6 +80,11 @@ def obs_c03(case):
         return ev
     P = msg.payload or b""
     ev["P"] = list(P)
+    # hostile caller: overwrite in place every list the message exposes (omitted array attributes must not be shared between messages)
+    for _k, _v in list(vars(msg).items()):
+        if isinstance(_v, list):
+            for _j in range(len(_v)):
+                _v[_j] = 0xA5
     # parse the serialisation back and project the supplied names again (candidates now from the built payload)
     try:
         back, bout = parse_call(msg.serialize(), m, pbf, 1)
